@@ -1,0 +1,30 @@
+//go:build verif
+
+package assets
+
+// Machine-checked contracts for package assets (read by /verif/govc; this
+// file contains comments only and is compiled only with build tag verif).
+//
+//@ // C12 (DefaultClassifier): the callback of fs.WalkDir adds every embedded
+//@ // file under the first three segments of its path with exactly its bytes,
+//@ // like LoadLicenses does for a file at category/name/variant. The embed
+//@ // pattern */*/* only admits entries at depth >= 3; that every file the walk
+//@ // reports has at least three segments is an assumption about package embed
+//@ // (listed in the evidence), under which the callback cannot panic.
+//@ func DefaultClassifier$1
+//@   preserves wfClassifier(c)
+//@   assumes err == nil ==> nsep(path, "/") + 1 >= 3
+//@   callreq AddContent requires arg_category == splitSeg(path, "/", 0) && arg_name == splitSeg(path, "/", 1) && arg_variant == splitSeg(path, "/", 2) && bytesOf(arg_content) == embedContent(path)
+//@   ensures err != nil ==> result == err
+//@   props C12 C10
+//@
+//@ func DefaultClassifier
+//@   ensures result1 == nil ==> result0 != nil && wfClassifier(result0)
+//@   ensures result1 != nil ==> result0 == nil
+//@   props C12 C10
+//@
+//@ func ReadLicenseFile
+//@   props C12
+//@
+//@ func ReadLicenseDir
+//@   props C12
